@@ -88,8 +88,11 @@ func gatesAuth(s *Summary, c *gateCase) {
 		accounts[a[0]] = a[1]
 	}
 	for _, hv := range authHeaders(c) {
-		for posk := 0; posk < 10; posk++ { // the gate as global, group or route middleware; 3: behind a handler that has already written
-			pos, preflight := posk%5, posk >= 5 // preflight: the same as an OPTIONS request that looks like a CORS preflight
+		for posk := 0; posk < 14; posk++ { // the gate as global, group or route middleware; 3: behind a handler that has already written
+			pos, preflight := posk%5, posk >= 5 && posk < 10 // preflight: the same as an OPTIONS request that looks like a CORS preflight
+			if posk >= 10 {
+				pos = posk - 5 // 5, 6: the gate behind an outer gate without account list / behind a middleware that stored a user name; 7, 8: see below
+			}
 			ran := []string{}
 			r := rux.New()
 			auth := handlers.HTTPBasicAuth(accounts)
@@ -113,6 +116,22 @@ func gatesAuth(s *Summary, c *gateCase) {
 			case 2:
 				r.Use(mark("before"))
 				r.Add("/p", mark("main"), "GET", "OPTIONS").Use(auth, mark("after"))
+			case 5:
+				// an outer gate WITHOUT account list (any well-formed credentials) in front of the gate that has one
+				r.Use(mark("before"), handlers.HTTPBasicAuth(nil))
+				r.Group("/", func() { r.Add("/p", mark("main"), "GET", "OPTIONS").Use(mark("after")) }, auth)
+			case 6:
+				// an earlier middleware of the application has stored the name the client CLAIMS under the key the gate uses
+				r.Use(mark("before"), func(cx *rux.Context) { cx.Set("username", c.Cred.User) })
+				r.Group("/", func() { r.Add("/p", mark("main"), "GET", "OPTIONS").Use(mark("after")) }, auth)
+			case 7:
+				// the route carries middleware of its own when it is attached inside the gated group (Any, a prepared route
+				// object): the group's gate still comes first
+				r.Use(mark("before"))
+				r.Group("/", func() { r.Any("/p", mark("main"), mark("after")) }, auth)
+			case 8:
+				r.Use(mark("before"))
+				r.Group("/", func() { rux.NewRoute("/p", mark("main"), "GET", "OPTIONS").Use(mark("after")).AttachTo(r) }, auth)
 			case 4:
 				// the gate as route middleware inside a group whose chain was grown by single Use calls (spare capacity), with a
 				// sibling route that has middleware of its own registered after it
@@ -152,7 +171,8 @@ func gatesAuth(s *Summary, c *gateCase) {
 			if w.Code != wantCode || downstream != (c.Expect == "pass") || (c.Expect == "401") != challenge || (c.Expect != "pass" && !reflect.DeepEqual(ran, []string{"before"})) {
 				s.mismatch(map[string]any{"kind": "gates", "aspect": "auth", "what": fmt.Sprintf(
 					"HTTPBasicAuth(accounts %v) as %s middleware, Authorization %q: status %d, handlers run %v, challenge=%v; the statement gives %s",
-					accounts, []string{"global", "group", "route", "global (after a handler that has written)", "route (in a group with three Use calls, before a sibling route)"}[pos]+map[bool]string{true: " (OPTIONS preflight)", false: ""}[preflight], hv, w.Code, ran, challenge, c.Expect)}, c)
+					accounts, []string{"global", "group", "route", "global (after a handler that has written)", "route (in a group with three Use calls, before a sibling route)", "group (behind a global gate without account list)", "group (behind a middleware that stored the claimed user name)",
+						"group (the route is registered with Any and its own middleware)", "group (a prepared route object with its own middleware is attached)"}[pos]+map[bool]string{true: " (OPTIONS preflight)", false: ""}[preflight], hv, w.Code, ran, challenge, c.Expect)}, c)
 				return
 			}
 		}
